@@ -5,7 +5,6 @@ use std::str::FromStr;
 
 use rayon::prelude::*;
 use serde_json::json;
-use zerv::cli::{CheckArgs, run_check_command};
 use zerv::version::PEP440;
 use zvharness::refmodel::pep440 as rp;
 use zvharness::*;
@@ -61,8 +60,7 @@ fn judge(x: &str, with_check_cmd: bool, st: &mut Stats) -> Option<(String, Strin
     }
     if with_check_cmd {
         st.inc("clause_check_cmd");
-        let args = CheckArgs { version: x.to_string(), format: Some("pep440".to_string()) };
-        let r = match catch(|| run_check_command(args)) {
+        let r = match catch(|| zv::check(x, Some("pep440"))) {
             Ok(r) => r,
             Err(p) => return Some((format!("panic@{}", p.file()), format!("check panic {} at {}", p.message, p.location))),
         };
@@ -87,6 +85,8 @@ fn report(ctx: &Ctx, x: &str, kind: &str, v: Option<(String, String)>, st: &mut 
         ctx.violation(&class, format!("{x:?}"), json!({"input": x, "kind": kind}), detail);
     }
 }
+
+static STDIN_LAYER_RUNS: std::sync::atomic::AtomicU64 = std::sync::atomic::AtomicU64::new(0);
 
 fn main() {
     let ctx = Ctx::from_args("C09", "model_checking");
@@ -213,6 +213,32 @@ fn main() {
         }
     }
 
+
+    // the string under test is the argument and nothing else: whatever stands on stdin (nothing, a valid version, another
+    // spelling, garbage, the argument itself), with or without `--` before the argument, the verdict and the shown version are
+    // those of the argument - also for arguments that other tools read as "take it from stdin" (`-`, `@-`, `/dev/stdin`)
+    {
+        let bin = proc::zerv_bin();
+        let subjects = ["-", "--", "@-", "/dev/stdin", "stdin", "", " ", "1.2.3", "V1.0RC", "1..0", "-1", "-v", "+", "."];
+        let stdins: [Option<&str>; 7] = [None, Some(""), Some("1.2.3\n"), Some("V1.0RC"), Some("not a version\n"), Some("-\n"), Some("1.2.3\nV1.0RC\n")];
+        let jobs: Vec<(&str, Option<&str>, bool)> = subjects.iter().flat_map(|s| stdins.iter().flat_map(move |i| [(*s, *i, true), (*s, *i, false)])).filter(|(s, _, dd)| *dd || !(s.starts_with('-') && s.len() > 1)).collect();
+        let outs: Vec<((&str, Option<&str>, bool), proc::Out)> = jobs.par_iter().map(|&(s, i, dd)| {
+            let mut args: Vec<String> = vec!["check".into(), "--format".into(), "pep440".into()];
+            if dd { args.push("--".into()); }
+            args.push(s.to_string());
+            let o = proc::run(&proc::Run { program: &bin, args, stdin: i.map(|x| x.as_bytes().to_vec()), env: proc::base_env(), cwd: None, timeout: std::time::Duration::from_secs(10) }).unwrap_or_else(|e| machinery_error(&format!("spawn zerv: {e}")));
+            ((s, i, dd), o)
+        }).collect();
+        let mut sx = Stats::default();
+        for ((s, i, dd), o) in outs {
+            if o.timed_out { machinery_error("zerv check timed out"); }
+            sx.inc("check_stdin_state_runs");
+            let inproc = zv::check(s, Some("pep440"));
+            let same = match &inproc { Ok(t) => o.status == 0 && o.stdout_str() == format!("{t}\n"), Err(_) => o.status != 0 && o.stdout.is_empty() };
+            if !same { ctx.violation("check_verdict_depends_on_stdin", format!("check {}{s:?} with stdin {i:?}", if dd { "-- " } else { "" }), json!({"input": s, "stdin": i, "kind": "proc-stdin"}), format!("binary exit {} stdout {:?}; the argument alone gives {:?}", o.status, o.stdout_str(), inproc)); }
+        }
+        STDIN_LAYER_RUNS.store(sx.get("check_stdin_state_runs"), std::sync::atomic::Ordering::Relaxed);
+    }
     // process conformance slice through the real binary
     let bin = proc::zerv_bin();
     if !bin.exists() { machinery_error(&format!("zerv binary missing at {bin:?}")); }
@@ -228,7 +254,7 @@ fn main() {
     for (s, o) in res {
         if o.timed_out { machinery_error("zerv check timed out"); }
         sp.inc("process_conformance_cases");
-        let inproc = run_check_command(CheckArgs { version: s.clone(), format: Some("pep440".into()) });
+        let inproc = zv::check(&s, Some("pep440"));
         let same = match &inproc { Ok(t) => o.status == 0 && o.stdout_str() == format!("{t}\n"), Err(_) => o.status != 0 && o.stdout.is_empty() };
         if !same {
             ctx.violation("check_binary_mismatch", format!("{s:?}"), json!({"input": s, "kind": "proc"}), format!("binary exit {} stdout {:?}; in-process {:?}", o.status, o.stdout_str(), inproc.as_ref().ok()));
@@ -284,6 +310,7 @@ fn main() {
     cov.rule = format!("(a) every string over {sigma18:?} up to length {la}; (b) every sequence of up to {lb} tokens from {tokens:?}; (b3) every accepted token string of depth <= 3 with 36 leading and 24 trailing decorations (ref paths, requirement operators, quotes, file and revision suffixes, white space), parser and check command; (c) the full product epoch{epoch:?} x release{release:?} x sep x pre-label{pre_l:?} x sep x number{num:?} x post{post:?} x dev{dev:?} x local{local:?} x prefix{vp:?}; (d) boundary numerals x numeric slots. non-trivial = evaluations the reference grammar accepts (so the normal-form / idempotence / equality clauses fire)");
     cov.exhaustive = true;
     cov.samples = vec![json!("1.0-post_1.dev+A-b_01"), json!("v01!01.2_Alpha.01-1.dev+01"), json!("1.0poſt1"), json!("4294967296!1.0")];
+    cov.set("check_stdin_state_runs", STDIN_LAYER_RUNS.load(std::sync::atomic::Ordering::Relaxed));
     cov.set("clause_counts", all.to_json());
     cov.set("model_xcheck_cases", xcheck_cases);
     cov.set("process_conformance_cases", sp.get("process_conformance_cases"));
